@@ -155,17 +155,10 @@ def coq_eval(env, imports, body, name="cases", timeout=900):
         f.write("From GV Require Import %s.\n" % " ".join(imports))
         f.write("Set Printing Width 1000000.\nSet Printing Depth 100000000.\n")
         f.write(body)
-    def _big_stack():
-        # vm_compute recurses on the C stack: deep object graphs of the run-time model overflow the default 8 MB
-        import resource
-        try:
-            soft, hard = resource.getrlimit(resource.RLIMIT_STACK)
-            want = hard if hard != resource.RLIM_INFINITY else resource.RLIM_INFINITY
-            resource.setrlimit(resource.RLIMIT_STACK, (want, hard))
-        except (ValueError, OSError):
-            pass
-    p = subprocess.run(["timeout", str(timeout), "coqc", "-Q", env.dir, "GV", fn], stdout=subprocess.PIPE,
-                       stderr=subprocess.STDOUT, text=True, preexec_fn=_big_stack)
+    # vm_compute recurses on the C stack: deep object graphs of the run-time model overflow the default 8 MB.  The limit is raised by
+    # a shell wrapper (not by a preexec_fn: this function is called from worker threads)
+    p = subprocess.run(["sh", "-c", 'ulimit -s unlimited 2>/dev/null || ulimit -s "$(ulimit -H -s)" 2>/dev/null; exec "$@"', "sh",
+                        "timeout", str(timeout), "coqc", "-Q", env.dir, "GV", fn], stdout=subprocess.PIPE, stderr=subprocess.STDOUT, text=True)
     for ext in (".v", ".vo", ".vok", ".vos", ".glob"):
         try:
             os.remove(fn[:-2] + ext)
